@@ -1,30 +1,41 @@
 #!/bin/bash
-# seed_matrix.sh [all]: re-run every archived seeded change against its owning check (quick tier)
-# in private copies (a worktree of /repo and a worktree of /verif), so /repo itself is not touched.
-# With "all", every seed is run against all 20 checks. Results: /verif/seeded/MATRIX.txt
+# seed_matrix.sh [all]: re-run every archived seeded change against its owning check (quick tier) and the
+# checks named in its recorded result, in private copies (worktrees of /repo and /verif per lane), so /repo
+# itself is not touched. LANES parallel lanes (default 3). With "all", every seed meets all 20 checks.
+# Result: /verif/seeded/MATRIX.txt
 set -u
-R=/tmp/seedmx-repo; V=/tmp/seedmx-verif
-git -C /repo worktree remove --force $R >/dev/null 2>&1; git -C /verif worktree remove --force $V >/dev/null 2>&1
-git -C /repo worktree add -q --detach $R HEAD || exit 2
-git -C /verif worktree add -q --detach $V HEAD || exit 2
-sed -i "s|path = \"/repo\"|path = \"$R\"|" $V/mc/Cargo.toml
-export RRSS_REPO=$R
-out=/verif/seeded/MATRIX.txt; : > $out.tmp
-echo "# seeded change x check (quick tier) at /verif $(git -C /verif rev-parse --short HEAD), /repo $(git -C /repo rev-parse --short HEAD)" >> $out.tmp
-for d in /verif/seeded/C*/; do
-  id=$(basename $d); owner=${id:0:3}
-  if ! git -C $R apply $d/patch.diff 2>/dev/null; then echo "$id patch-does-not-apply-to-HEAD" >> $out.tmp; continue; fi
-  # the owning check plus every check named in the recorded result ("DETECTED ... by C02", "also C12")
-  extra=$(python3 -c "import json,re,sys; m=json.load(open('$d/meta.json')); print(' '.join(sorted(set(re.findall(r'C[0-2][0-9]', m.get('result',''))) - {'$owner'})))" 2>/dev/null)
-  checks="$owner $extra"; [ "${1:-}" = "all" ] && checks="C01 C02 C03 C04 C05 C06 C07 C08 C09 C10 C11 C12 C13 C14 C15 C16 C17 C18 C19 C20"
-  line="$id"
-  for c in $checks; do
-    $V/check $c quick > /tmp/seedmx.log 2>&1; rc=$?
-    n=$(grep -c '^VIOLATION' /tmp/seedmx.log)
-    if [ $rc -eq 1 ]; then line="$line $c:DETECTED($n)"; elif [ $rc -eq 0 ]; then line="$line $c:silent"; else line="$line $c:machinery($rc)"; fi
+LANES=${LANES:-3}
+out=/verif/seeded/MATRIX.txt
+seeds=(/verif/seeded/C*/)
+lane() {
+  local l=$1 R=/tmp/seedmx-repo-$1 V=/tmp/seedmx-verif-$1 part=/tmp/seedmx-part-$1.txt log=/tmp/seedmx-$1.log
+  git -C /repo worktree remove --force $R >/dev/null 2>&1; git -C /verif worktree remove --force $V >/dev/null 2>&1
+  git -C /repo worktree add -q --detach $R HEAD || exit 2
+  git -C /verif worktree add -q --detach $V HEAD || exit 2
+  sed -i "s|path = \"/repo\"|path = \"$R\"|" $V/mc/Cargo.toml
+  export RRSS_REPO=$R
+  : > $part
+  local i=0
+  for d in "${seeds[@]}"; do
+    i=$((i+1)); [ $((i % LANES)) -eq $l ] || continue
+    local id=$(basename $d) owner; owner=${id:0:3}
+    if ! git -C $R apply $d/patch.diff 2>/dev/null; then echo "$id patch-does-not-apply-to-HEAD" >> $part; continue; fi
+    local extra; extra=$(python3 -c "import json,re; m=json.load(open('$d/meta.json')); print(' '.join(sorted(set(re.findall(r'C[0-2][0-9]', m.get('result',''))) - {'$owner'})))" 2>/dev/null)
+    local checks="$owner $extra"; [ "${ALL:-}" = "all" ] && checks="C01 C02 C03 C04 C05 C06 C07 C08 C09 C10 C11 C12 C13 C14 C15 C16 C17 C18 C19 C20"
+    local line="$id"
+    for c in $checks; do
+      $V/check $c quick > $log 2>&1; local rc=$?
+      local n; n=$(grep -c '^VIOLATION' $log)
+      if [ $rc -eq 1 ]; then line="$line $c:DETECTED($n)"; elif [ $rc -eq 0 ]; then line="$line $c:silent"; else line="$line $c:machinery($rc)"; fi
+    done
+    echo "$line" >> $part
+    git -C $R checkout -q -- .
   done
-  echo "$line" >> $out.tmp
-  git -C $R checkout -q -- .
-done
-mv $out.tmp $out
-git -C /repo worktree remove --force $R; git -C /verif worktree remove --force $V; rm -f /tmp/seedmx.log
+  git -C /repo worktree remove --force $R; git -C /verif worktree remove --force $V; rm -f $log
+}
+ALL="${1:-}"
+for l in $(seq 0 $((LANES-1))); do lane $l & done
+wait
+{ echo "# seeded change x check (quick tier) at /verif $(git -C /verif rev-parse --short HEAD), /repo $(git -C /repo rev-parse --short HEAD)"; cat /tmp/seedmx-part-*.txt | sort; } > $out
+rm -f /tmp/seedmx-part-*.txt
+grep -c DETECTED $out
